@@ -296,14 +296,22 @@ def structure_checks(verdict, spec, nss, tier, seed):
                     lo, hi = kinds_bounds[c["kinds"][i]]
                     cols.append(rng.normal(0.5, 2.0, size=12) if not np.isfinite(lo) else rng.uniform(lo + 0.05, hi - 0.05, size=12))
                 data = np.stack(cols, axis=1).astype(fdt)
+                # the clipping margin requested by the caller (a fraction of the width) is the one applied:
+                # default, much smaller and much larger, with two points between 1e-9 and 1e-6 of a bound
+                ceps = [1e-6, 1e-9, 1e-3][ci % 3] if dt == "float64" else [1e-6, 1e-4, 1e-3][ci % 3]   # (1e-9 is below single precision)
+                for i in range(d):
+                    lo_, hi_ = kinds_bounds[c["kinds"][i]]
+                    if c["kinds"][i] == "bounded" and dt == "float64":
+                        data[0, i] = fdt(lo_ + (hi_ - lo_) * 3e-8)
+                        data[1, i] = fdt(hi_ - (hi_ - lo_) * 3e-8)
                 try:
                     if c["flowt"]:
                         T = FlowTransform(parameters=params, prior_bounds=bounds, bounded_to_unbounded=c["b2u"],
-                                          bounded_transform=c["btrans"], affine_transform=c["affine"], xp=xp, dtype=dt)
+                                          bounded_transform=c["btrans"], affine_transform=c["affine"], xp=xp, dtype=dt, eps=ceps)
                     else:
                         T = CompositeTransform(parameters=params, periodic_parameters=periodic, prior_bounds=bounds,
                                                bounded_to_unbounded=c["b2u"], bounded_transform=c["btrans"],
-                                               affine_transform=c["affine"], xp=xp, dtype=dt)
+                                               affine_transform=c["affine"], xp=xp, dtype=dt, eps=ceps)
                     X = xp.asarray(data)
                     if ci % 2 == 1:
                         # refit: first on other data, then on the data used below
@@ -326,9 +334,9 @@ def structure_checks(verdict, spec, nss, tier, seed):
                     if st["kind"] == "periodic":
                         E = PeriodicTransform(lower=np.asarray(lo, dtype=fdt), upper=np.asarray(hi, dtype=fdt), xp=xp, dtype=dt)
                     elif st["kind"] == "logit":
-                        E = LogitTransform(lower=np.asarray(lo, dtype=fdt), upper=np.asarray(hi, dtype=fdt), xp=xp, eps=1e-6, dtype=dt)
+                        E = LogitTransform(lower=np.asarray(lo, dtype=fdt), upper=np.asarray(hi, dtype=fdt), xp=xp, eps=ceps, dtype=dt)
                     elif st["kind"] == "probit":
-                        E = ProbitTransform(lower=np.asarray(lo, dtype=fdt), upper=np.asarray(hi, dtype=fdt), xp=xp, eps=1e-6, dtype=dt)
+                        E = ProbitTransform(lower=np.asarray(lo, dtype=fdt), upper=np.asarray(hi, dtype=fdt), xp=xp, eps=ceps, dtype=dt)
                     else:
                         E = AffineTransform(xp=xp, dtype=dt)
                     sub = xp.asarray(np.ascontiguousarray(cur[:, idx]))
@@ -388,9 +396,20 @@ def structure_checks(verdict, spec, nss, tier, seed):
                         verdict.violation(f"CompositeOrder|inverse-wide|{ns}/{dt}", f"inverse(y) on arbitrary latent points is not the reversed composition for {scen['params']['config']}", scen)
                 # laws on the real composite
                 tolx = 4096 * eps * (1 + np.abs(data).max())
-                if not np.allclose(xbn.astype(np.float64), data.astype(np.float64), rtol=0, atol=tolx):
-                    verdict.violation(f"RoundTrip|composite|{ns}/{dt}", f"inverse(forward(x)) != x for {scen['params']['config']} (max diff {np.max(np.abs(xbn - data))})", scen)
-                if not np.allclose(jbn, -jn, rtol=0, atol=64 * tolj):
+                # rows inside the requested clipping margin of a bound are outside the round-trip law
+                inside = np.ones(len(data), dtype=bool)
+                condrow = np.zeros(len(data))         # 1 - u is formed by cancellation: error eps / distance to the bound
+                if c["b2u"]:
+                    for i in range(d):
+                        if c["kinds"][i] == "bounded":
+                            lo_, hi_ = kinds_bounds["bounded"]
+                            u_ = (data[:, i].astype(np.float64) - lo_) / (hi_ - lo_)
+                            inside &= np.minimum(u_, 1 - u_) > 8 * max(ceps, eps)
+                            condrow = np.maximum(condrow, 1.0 / np.maximum(np.minimum(u_, 1 - u_), 1e-300))
+                xbn, jbn, jn_l, data_l = xbn[inside], jbn[inside], jn[inside], data[inside]
+                if not np.allclose(xbn.astype(np.float64), data_l.astype(np.float64), rtol=0, atol=tolx):
+                    verdict.violation(f"RoundTrip|composite|{ns}/{dt}", f"inverse(forward(x)) != x for {scen['params']['config']} with eps={ceps} (max diff {np.max(np.abs(xbn - data_l))})", scen)
+                if not np.all(np.abs(jbn + jn_l) <= 64 * tolj + 64 * eps * condrow[inside]):
                     verdict.violation(f"InvJacNeg|composite|{ns}/{dt}", f"inverse log-Jacobian is not minus the forward one for {scen['params']['config']}", scen)
     return n
 
